@@ -754,6 +754,10 @@ func (r *readerRun) exec(sc *xport.ScriptConn, outp *[]Ev) (out []Ev) {
 			acc = append(acc, b...)
 			cand, any := contentCand()
 			out = append(out, Ev{"e": "RA", "n": len(b), "err": r.classify(err), "obs": r.takeObs(), "cand": cand, "any": any})
+		case "SRD":
+			// SetReadDeadline is a pass-through: it must not change what the read API reports
+			err := c.SetReadDeadline(time.Time{})
+			out = append(out, Ev{"e": "SRD", "err": r.classify(err)})
 		case "RM":
 			var t int
 			var b []byte
